@@ -414,9 +414,12 @@ class FnX(FnTranslator):
                     else:
                         raise Refuse('assignment target (line %d)' % s.lineno)
             elif isinstance(s, ast.AugAssign):
-                if not isinstance(s.target, ast.Name):
-                    raise Refuse('augassign target')
-                out.append(s.target.id)
+                if isinstance(s.target, ast.Name):
+                    out.append(s.target.id)
+                elif dotted(s.target) in state:
+                    out.append(flat(dotted(s.target)))
+                else:
+                    raise Refuse('store to undeclared object attribute (line %d)' % s.lineno)
             elif isinstance(s, ast.If):
                 out += self.assigned(s.body) + self.assigned(s.orelse)
             elif isinstance(s, (ast.For, ast.While, ast.With)):
@@ -467,6 +470,21 @@ class FnX(FnTranslator):
             env2 = dict(env)
             env2[flat(d)] = t.ty
             return self.wrap(t.binds, 'let %s := %s in\n%s' % (flat(d), t.code, cont(env2)), monadic)
+        # ---- augmented store: only to a declared state field; any other attribute store is refused
+        if isinstance(s, ast.AugAssign) and not isinstance(s.target, ast.Name):
+            d = dotted(s.target)
+            if d not in state:
+                raise Refuse('store to undeclared object attribute %s (line %d): new object state is not modelled'
+                             % (d or type(s.target).__name__, s.lineno))
+            fake = ast.Assign(targets=[s.target], value=ast.BinOp(left=ast.Attribute(value=s.target.value, attr=s.target.attr,
+                                                                                   ctx=ast.Load(), lineno=s.lineno, col_offset=0),
+                                                                 op=s.op, right=s.value, lineno=s.lineno, col_offset=0),
+                              lineno=s.lineno, col_offset=0)
+            return self.block([fake] + list(rest), env, k, monadic)
+        if isinstance(s, ast.Assign) and len(s.targets) == 1 and isinstance(s.targets[0], ast.Attribute) \
+                and dotted(s.targets[0]) not in state and dotted(s.targets[0]) not in self.unit.caches:
+            raise Refuse('store to undeclared object attribute %s (line %d): new object state is not modelled'
+                         % (dotted(s.targets[0]), s.lineno))
         # ---- return from a state-passing method: (result, state)
         if isinstance(s, ast.Return) and state and self.sig['ret'] != OPT:
             if rest:
